@@ -249,8 +249,9 @@ class Grammar(FilterLane):
     SHAPES = ['eq', 'ge', 'le', 'approx', 'present', 'sub_i', 'sub_a', 'sub_f', 'sub_iaf', 'sub_aa', 'ext_attr', 'ext_attr_dn', 'ext_attr_rule', 'ext_attr_dn_rule', 'ext_rule', 'ext_dn_rule',
               'bare_eq', 'and0', 'or0', 'and2', 'or1', 'not', 'nest']
 
-    def __init__(self, ctx, vlen, nlen):
-        Lane.__init__(self, ctx, vlen, nlen); self.vlen = vlen; self.nlen = nlen; self.k = 0; self.simple = False
+    def __init__(self, ctx, vlen, nlen, shapes=None):
+        Lane.__init__(self, ctx, vlen, nlen, shapes); self.vlen = vlen; self.nlen = nlen; self.k = 0; self.simple = False
+        self.shapes = list(shapes or self.SHAPES)
 
     def fresh(self, p, bits=8):
         self.k += 1; return z3.BitVec(f'{p}{self.k}', bits)
@@ -341,7 +342,7 @@ class Grammar(FilterLane):
 
     def inputs(self):
         c = self.c; self.k = 0; S = ber.bstr
-        kind = self.SHAPES[c.choose(len(self.SHAPES), 'shape')]
+        kind = self.shapes[c.choose(len(self.shapes), 'shape')]
         leafs = ['eq', 'present', 'sub_iaf', 'ext_attr_dn_rule', 'ge']
         if kind == 'bare_eq':
             text, tree = self.leaf(kind)
@@ -387,9 +388,14 @@ def body(chk):
     for n in ((1, 2, 3, 4, 5) if quick else (1, 2, 3, 4, 5, 6, 7)):
         run_lane(chk, Raw, (n,), bounds={'string bytes': n, 'alphabet': 'all 256 byte values'}, selftest=(n == 5),
                  need_regions=(('accepted/ref-accepts', 'rejected/ref-rejects') if n >= 3 else ()))
-    p = (2, 2) if quick else tier_param('C08G', (3, 3))
+    p = (2, 2) if quick else tier_param('C08G', (2, 3))
     run_lane(chk, Grammar, p, bounds={'value bytes': f'<= {p[0]} per value, each raw or \\hh (hex case symbolic)', 'attribute description': f'descr of {p[1]} chars | d.d | a;o', 'shapes': Grammar.SHAPES},
              selftest=False, need_regions=tuple(Grammar.SHAPES))
+    if not quick:
+        simple = ['eq', 'ge', 'le', 'approx', 'bare_eq', 'ext_attr', 'ext_rule', 'not']
+        p3 = tier_param('C08L', (4, 2))
+        run_lane(chk, Grammar, (p3[0], p3[1], simple), bounds={'value bytes': f'<= {p3[0]} per value, each raw or \\hh (hex case symbolic)', 'attribute description': f'descr of {p3[1]} chars | d.d | a;o', 'shapes': simple},
+                 selftest=False, need_regions=tuple(simple))
     chk.assumptions += [
         'reference grammar: RFC 4515 + bare item + empty (&)/(|); a dot-less numeric OID is tolerated (library accepts, RFC does not) and not required',
         'a matching rule literally named "dn" is read as the :dn flag (ambiguity of the RFC grammar, documented behaviour)',
